@@ -231,10 +231,22 @@ fn main() {
                         for _ in 0..len {
                             let c = x % (times.len() * 2); x /= times.len() * 2;
                             let (src, ts) = (if c % 2 == 0 { "A" } else { "B" }, times[c / 2]);
-                            let mut ev = Event::new(src).with_field("k", Value::Int(1));
+                            let mut ev = Event::new(src).with_field("k", Value::Int(1)).with_field("seq", Value::Int(seen.len() as i64));
                             ev.timestamp = Utc.timestamp_millis_opt(ts).unwrap();
                             let out = jb.add_event(src, ev);
                             seen.push((src, ts));
+                            // the joined fields come from the most recently ARRIVED in-window event of each source (arrival order, not timestamp order)
+                            if let Some(j) = &out {
+                                for s in ["A", "B"] {
+                                    // an event may have been dropped lazily once some arrival was more than `window` ahead of it: the pick must be an in-window
+                                    // event of the source that arrived no earlier than the most recent in-window event that was never expirable
+                                    let hz = seen.iter().map(|(_, t)| *t).max().unwrap();
+                                    let floor = seen.iter().enumerate().filter(|(_, (y, t))| *y == s && *t >= ts - window && *t >= hz - window).map(|(i, _)| i as i64).max();
+                                    let got = j.get(&format!("{s}.seq")).and_then(|v| v.as_int());
+                                    let ok = got.map_or(false, |g| seen[g as usize].0 == s && seen[g as usize].1 >= ts - window && floor.map_or(true, |f| g >= f));
+                                    if !ok && bad.len() < 3 { bad.push(format!("history {seen:?} (window {window} ms): the joined event takes {s} from arrival #{got:?}, but the most recently arrived in-window {s} event that cannot have expired is #{floor:?}")) }
+                                }
+                            }
                             // the buffer may (lazily) drop an event once some arrival is more than `window` ahead of it: a join is REQUIRED when every source
                             // has an event within the window of the arriving one that was never expirable, and FORBIDDEN when some source has none within the window
                             let horizon = seen.iter().map(|(_, t)| *t).max().unwrap();
